@@ -86,6 +86,10 @@ var transTargets = []transTarget{
 	{"message/kakfamessagereceiver.go", "KafkaMessageReceiver", "buildPartitionAssignments", "loop0", "mrStartOffsetBody"},
 	// C11
 	{"executor/message.go", "Executor", "deliverMessageToNode", "", "exDeliverToNode"},
+	// C12
+	{"message/kafkamessagesender.go", "KafkaMessageSender", "produceMessage", "", "msProduceMessage"},
+	{"message/kafkamessagesender.go", "KafkaMessageSender", "Send", "", "msSend"},
+	{"message/kafkamessagesender.go", "KafkaMessageSender", "Ack", "", "msAck"},
 }
 
 // integer constants of other packages that the fragments compare against
